@@ -356,6 +356,16 @@ class Model:
             del self.astereo[k]
         for k in [k for k, d in self.bstereo.items() if a in d[1]]:
             del self.bstereo[k]
+        # descriptors inside stereo changes are descriptors, too ("removes ... every descriptor that mentions it"): the slots that mention the atom go,
+        # an entry without slots goes
+        for table in (getattr(self, "achg", None), getattr(self, "bchg", None)):
+            if table is None:
+                continue
+            for k in list(table):
+                for c in [c for c, d in table[k].items() if d is not None and a in d[1]]:
+                    del table[k][c]
+                if not table[k]:
+                    del table[k]
 
     def set_atom_attribute(self, a, attr, v):
         if a not in self.atoms:
